@@ -24,6 +24,7 @@
 (*            paragraph, keyed by the paragraph's text token               *)
 (*   tml[d]   the level every TOC was last generated with (0 = unknown)    *)
 (*   gone[d]  note ids removed from document d                             *)
+(*   past[d]  every list request ever made on document d (never shrinks)   *)
 (*   touched, opened, last, lastok, n (allocation counter of the reference)*)
 (*                                                                         *)
 (* An operation is a record [op |-> name, d |-> document, ...arguments];   *)
@@ -74,7 +75,7 @@ NoOp == [op |-> "none", d |-> 0]
 NoGone == [f |-> {}, e |-> {}]
 
 InitSt(nd) == [docs |-> [d \in 1..nd |-> InitDoc], reqs |-> [d \in 1..nd |-> {}], tml |-> [d \in 1..nd |-> <<>>],
-               gone |-> [d \in 1..nd |-> NoGone], touched |-> [d \in 1..nd |-> FALSE], opened |-> [d \in 1..nd |-> FALSE],
+               gone |-> [d \in 1..nd |-> NoGone], past |-> [d \in 1..nd |-> {}], touched |-> [d \in 1..nd |-> FALSE], opened |-> [d \in 1..nd |-> FALSE],
                last |-> NoOp, lastok |-> FALSE, n |-> 0]
 
 NDocs(s) == Len(s.docs)
@@ -137,8 +138,13 @@ LvlClass(r) == IF r.lvl \in LevelsOK THEN "lvl-in" ELSE "lvl-out"
 Toks(its) == [i \in 1..Len(its) |-> its[i].tok]
 
 \* ---- the property on ONE document state (witness set; empty = holds) ----------
-ItemWits(v, rq) ==
-  UNION {{<<"item", p[1].tok, KindOf(p[1]), LvlClass(p[1]), f>> : f \in ItemViol(p[1], v.items[p[2]])} :
+Untag(r) == [type |-> r.type, sym |-> r.sym, lvl |-> r.lvl, start |-> r.start]
+\* state class of a wrong start value: was the same type / symbol / level requested with ANOTHER start before?
+StartClass(r, past) ==
+  IF \E q \in past : q.type = r.type /\ q.sym = r.sym /\ q.lvl = r.lvl /\ q.start # r.start THEN "after-other-start" ELSE "plain"
+ItemWits(v, rq, past) ==
+  UNION {{<<"item", p[1].tok, KindOf(p[1]), LvlClass(p[1]), f, IF f = "start" THEN StartClass(p[1], past) ELSE "plain">> :
+            f \in ItemViol(p[1], v.items[p[2]])} :
            p \in {q \in rq \X (1..Len(v.items)) : q[1].tok = v.items[q[2]].tok}}
 Ids(part) == {part[i].id : i \in 1..Len(part)}
 NoteWits(v) ==
@@ -149,7 +155,7 @@ NoteWits(v) ==
 HeadWits(v) ==
      (IF v.lheads # Listed(v.heads) THEN {<<"ListHeadings">>} ELSE {})
   \cup (IF v.hcnt # CountOf(v.heads) THEN {<<"GetHeadingCount">>} ELSE {})
-InvDoc(v, rq) == ItemWits(v, rq) \cup NoteWits(v) \cup HeadWits(v)
+InvDoc(v, rq, past) == ItemWits(v, rq, past) \cup NoteWits(v) \cup HeadWits(v)
 
 \* ---- one operation on one document ----------------------------------------
 NoteAdds == {"AddFootnote", "AddFootnoteToRun", "AddEndnote"}
@@ -219,6 +225,7 @@ X(s, op, ch) ==
   LET d == op.d
       r == XDoc([v |-> s.docs[d], rq |-> s.reqs[d], tm |-> s.tml[d], gn |-> s.gone[d]], op, ch)
   IN [s EXCEPT !.docs[d] = Norm(r.v), !.reqs[d] = r.rq, !.tml[d] = r.tm, !.gone[d] = r.gn,
+               !.past[d] = @ \cup {Untag(q) : q \in r.rq},
                !.touched[d] = TRUE, !.opened[d] = @ \/ op.op = "Reopen",
                !.last = op, !.lastok = IsOk(Ret(s.docs[d], op, ch)), !.n = s.n + Alloc(op)]
 
@@ -293,7 +300,7 @@ Diff(pv, x, o, ex) ==
 Regen == {"UpdateTOC", "AutoGenerateTOC"}
 
 \* signature tail of an invariant witness (the text token is replaced by old/new)
-SigOf(w, pv) == IF w[1] = "item" THEN <<"item", IF w[2] \in ElemsOf(Toks(pv.items)) THEN "old" ELSE "new", w[3], w[4], w[5]>> ELSE w
+SigOf(w, pv) == IF w[1] = "item" THEN <<"item", IF w[2] \in ElemsOf(Toks(pv.items)) THEN "old" ELSE "new", w[3], w[4], w[5], w[6]>> ELSE w
 
 Judge(s, e) ==
   LET op  == e.op
@@ -313,7 +320,7 @@ Judge(s, e) ==
            \cup (IF op.op \in Regen /\ op = s.last /\ s.lastok /\ IsOk(e.ret) /\ o # pv
                  THEN {pre \o <<"not-idempotent">>} ELSE {}))
    \cup UNION {{(IF dd = d THEN pre ELSE <<"C15", op.op, IF s.opened[dd] THEN "reopened" ELSE "new", "other-doc">>) \o SigOf(w, s.docs[dd]) :
-                   w \in IF e.docs[dd].sv # "ok" THEN {} ELSE InvDoc(e.docs[dd], x.reqs[dd]) \ InvDoc(s.docs[dd], s.reqs[dd])} :
+                   w \in IF e.docs[dd].sv # "ok" THEN {} ELSE InvDoc(e.docs[dd], x.reqs[dd], x.past[dd]) \ InvDoc(s.docs[dd], s.reqs[dd], x.past[dd])} :
                  dd \in 1..NDocs(s)}
 
 \* the judge continues from what the implementation really did
